@@ -462,3 +462,10 @@ package schema
 //@   ensures result != nil
 //@   ensures implies(len(path) >= 1, is(result, *mgmterror.UnknownElementApplicationError) && mgmt_badelem(result.(*mgmterror.UnknownElementApplicationError)) == path[len(path)-1])
 //@   ensures implies(len(path) >= 1, result.(*mgmterror.UnknownElementApplicationError).MgmtError.Path == pathstr(backing(path), off(path), len(path)-1))
+//@ func NewPathInvalidError
+//@   nopanic
+//@   ensures result != nil && is(result, *mgmterror.UnknownElementApplicationError) && mgmt_badelem(result.(*mgmterror.UnknownElementApplicationError)) == invalidElem
+//@   ensures result.(*mgmterror.UnknownElementApplicationError).MgmtError.Path == pathstr(backing(path), off(path), len(path))
+//@ func NewIdentity
+//@   nopanic
+//@   ensures result != nil && isfresh(result) && result.Module == mod && result.Namespace == namespace && result.Val == val && result.Value == value
